@@ -46,6 +46,8 @@ namespace nmtools::index
             src_2 = offset > 0 ? src_2 - offset : src_2;
             
             auto src_i = (src_1 < src_2 ? src_1 : src_2);
+            // an offset beyond the extent selects an empty diagonal (as in numpy)
+            src_i = (src_i < 0 ? 0 : src_i);
 
             at(result,r_idx) = src_i;
         }
